@@ -120,6 +120,9 @@ def run(prog: Program, rep: Report, tier: str):
     rule_flatten(prog, rep, "C08.flatten")
     from .merge import rule_merge_transforms
     rule_merge_transforms(prog, rep, "C08.merge")
+    from .lints import rule_truthy
+    rule_truthy(prog, rep, "C08.truthy", lambda m: m.name.startswith("flowjax.bijections") or m.name in (
+        "flowjax.utils", "flowjax.distributions"))
     if tier == "thorough":
         from ..audit import audit_generic
         audit_generic(prog, rep, "C08")
@@ -251,8 +254,19 @@ def rule_axis(prog, rep, R="C08.axis"):
 
 def rule_shape(prog, rep):
     rep.rule("C08.shape", "constructors and shape properties compute shape / cond_shape / framing quantities as "
-                          "documented (reference snippets with jnp.concatenate / jnp.stack / vmap semantics)",
-             minimum=22)
+                          "documented (reference snippets with jnp.concatenate / jnp.stack / vmap semantics); "
+                          "merge_cond_shapes returns None iff every entry is None, else the common non-None shape",
+             minimum=23)
+    # every combinator's declared cond_shape is merge_cond_shapes(children): None iff all are None, else the common
+    # non-None shape (a rank-0 condition () is a shape, not "no condition")
+    from .c13 import FUNC_REFS
+    from ..refs import eval_ref_function
+    m, fn = prog.func("flowjax.utils.merge_cond_shapes")
+    argn, src = FUNC_REFS["flowjax.utils.merge_cond_shapes"]
+    a0 = [("sym", a) for a in argn]
+    compare(rep, "C08.shape", f"{m.relpath}:{fn.lineno}", "merge_cond_shapes:value",
+            Interp(prog).eval_function("flowjax.utils.merge_cond_shapes", a0), eval_ref_function(prog, m, src, a0),
+            "merged condition shape")
     for q, (argnames, src, fields) in CTOR_REFS.items():
         c = prog.cls(q)
         args = [("sym", a) for a in argnames]
